@@ -79,6 +79,10 @@ def search(su, U, k, K, kind, early=False, resume=False, k2=0, timeout_s=300, so
             h.assume.append(rv)           # the first close_until stopped early
 
     h.sym_close(K, early or resume, on_cond, on_return_first)
+    if kind == "idem":
+        import lemmas as L
+        snap = L.observable_snapshot(h.st)
+        h.sym_close(K, False, lambda g: None, lambda rv: bad.append(-L.same_observable(h.st, snap)))
     if resume:
         for i in range(k2):
             h.sym_call(k + i)
@@ -110,6 +114,15 @@ def replay(su, sch, harness, name, script, kind, rules, U=8):
         return replay_enum(su, sch, harness, name, script)
     if kind == "contract":
         return replay_contract(su, sch, harness, name, script)
+    if kind == "idem":
+        import selfcomp as SC
+        rc, out, err = harness.run(name, list(script) + ["dump", "close", "dump"], timeout=60)
+        if rc != 0:
+            return True, ["native run panics: " + err.strip().split("\n")[0][:200]]
+        dumps = [e[2] for e in N.parse_output(out) if e[0] == "dump"]
+        a, b = SC.canonical_model(sch, dumps[-2]), SC.canonical_model(sch, dumps[-1])
+        diff = ["a second close() changes %s: %s -> %s" % (k, a[k], b[k]) for k in a if a[k] != b.get(k)]
+        return bool(diff), diff[:4]
     for l in script:
         # a plain close() is replayed as close_until with a condition that never holds, so that the state is
         # also dumped at every evaluation of the condition (observation points of C04)
